@@ -146,6 +146,13 @@ PROPS = {
         "hypotheses": [],
         "not_decided": ["serde-derived decoders (serde_bare / serde_json) and the curve crates' own parsers", "termination of the two probabilistic retry loops (zero scalar re-draw)"],
     },
+    "C20": {
+        "units": [gen("C20")],
+        "level_text": "Deductive proof (Verus) of the PROVENANCE of every ephemeral value: each randomized entry point computes its ephemeral scalar/mask from bytes drawn in this call from a generator created by ChaCha20Rng::from_entropy() in this call (or from the caller's generator for the *_with_rng forms). The statistical statement (no collision over 4096 calls, threads, processes) is reduced to the assumption that the OS entropy source does not repeat.",
+        "trusted_base": TB_ALGEBRA + ["A-RNG: from_entropy() yields an entropy-seeded generator whose seeds never repeat across calls/threads/processes; gen()/Scalar::random return draw(state) and advance the state; from_seed and clones are NOT entropy-seeded"],
+        "hypotheses": [],
+        "not_decided": ["freshness across sequences of calls, threads and processes (a property of the OS entropy source and of histories, not of one call)", "SecretKey::split / shamir coefficients and the ElGamal blinders (functions not yet under contract)"],
+    },
 }
 
 NOT_APPLICABLE = {
